@@ -24,6 +24,35 @@ reg(
     "Trusted: the 60-line Fraction power-series recurrence in pdv/poly.py; float64 evaluation of small-rational polynomials.",
 )
 
+reg(
+    "C17",
+    "interposed Rademacher draws (full 2^(n*d) sign enumeration) + analytic Jacobian reference; key-advance trace over successive calls",
+    "The three handlers run on random non-square smooth maps; backend.random.rademacher is interposed so the stochastic handlers "
+    "receive every sign tensor exactly once: their estimate must then equal the exact trace/diagonal block to 1e-11 (exact "
+    "unbiasedness, no Monte-Carlo tolerance). Logged sub-keys must be pairwise distinct and the carried key must change. A fixed "
+    "table of malformed inputs must raise. Exploration over shapes/points; exhaustive over probes for each case.",
+    "Trusted: analytic Jacobian of the generated linear+sin+bilinear map; jax.random.split.",
+)
+reg(
+    "C09",
+    "reference-model monitor: exact rational IWP closed form and 90-digit Van Loan exponential vs prior.transition / merge / exp_gram_cholesky (float64 and float32 workers)",
+    "Transitions of all Wiener priors (3 factorisations, nu<=10, d<=5, h in [1e-6,1e2], diagonal base scales) and dense "
+    "OU/Matern/general exponential priors (||drift*h|| up to 50) are un-preconditioned by our own code and compared entrywise "
+    "with the exact discretisation; composition and scale-linearity are checked on the same objects; the raw Pade/Legendre "
+    "routine is checked for all five orders in float64 and float32 worker processes.",
+    "Trusted: closed-form IWP formulas over Fraction; hand-written scaling-and-squaring Taylor exponential at 90 digits (mpmath).",
+)
+reg(
+    "C08",
+    "reference-model monitor: direct calls on LatentCond/Normal objects with hostile factors and scalings vs 50-digit dense Gaussian formulas; revert judged through the joint law of (x,y)",
+    "Each generated case (factorisation x shapes x well/ill/rank-deficient/zero/non-triangular factors x scalings in "
+    "[1e-12,1e12]) exercises marginalise, apply_flat, merge, preconditioner_apply, revert (triangular and least-squares "
+    "solves), the three bayes-rule composites, logpdf, whitened rms, std, rescale, dense conversion, to_derivative, "
+    "identity_conditional and vmapped variants; deviations are scaled entrywise by the natural forward-error bounds.",
+    "Trusted: mpmath arithmetic and our 100-line embedding of raw fields; revert with lstsq is not judged in the grey zone "
+    "1e-17 < sigma_min/sigma_max < 1e-11 where rcond truncation is unpredictable (counted in evidence).",
+)
+
 NOT_BUILT_REASON = "check under construction in this session; not yet registered"
 
 
